@@ -827,9 +827,17 @@ type streamWriter struct {
 	startPos   int64
 	length     *Placeholder
 	buf        []byte
+	closed     bool
 }
 
+var errStreamClosed = errors.New("stream already closed")
+
 func (w *streamWriter) Write(p []byte) (int, error) {
+	if w.closed {
+		// e.g. the end-of-data marker of a filter which is closed again:
+		// the file has moved on, nothing more belongs to this stream
+		return 0, errStreamClosed
+	}
 	if !w.started {
 		if len(w.buf)+len(p) < 1024 {
 			w.buf = append(w.buf, p...)
@@ -870,6 +878,9 @@ func (w *streamWriter) startWriting() error {
 }
 
 func (w *streamWriter) Close() error {
+	if w.closed {
+		return errStreamClosed
+	}
 	var length Integer
 	if w.started {
 		length = Integer(w.parent.w.pos - w.startPos)
@@ -907,6 +918,7 @@ func (w *streamWriter) Close() error {
 	}
 
 	w.parent.inStream = false
+	w.closed = true
 	// The queue is taken over before it is replayed: a queued stream object
 	// is written through OpenStream, and the Close of that stream must not
 	// find (and write again) the objects which are being written here.
